@@ -68,6 +68,21 @@ contract("_ModuleCache.get_pymodule", source=C + "_ModuleCache.get_pymodule", pa
              "watched(self, observed)"],
          note="whatever enters the cache is watched from then on")
 
+# ---- PyCore passes every notification from its filtered observer on to every registered cache ------------------------------------------------
+ghost("cache_calls", "Seq[Tuple[CacheObserver,Resource]]")
+record("CacheObserver", fields={})
+REG.records["PyCore"].fields.update({"cache_observers": "Seq[CacheObserver]"})
+contract("CacheObserver.__call__", abstract=True, params={"self": "CacheObserver", "resource": "Resource"}, modifies=["cache_calls"],
+         ensures=["cache_calls == old(cache_calls) + [(self, resource)]"],
+         note="a registered cache callback (e.g. the bound method _ModuleCache._invalidate_resource, proved above); assumed not to raise")
+contract("PyCore._invalidate_resource_cache", source=C + "PyCore._invalidate_resource_cache", params={"self": "PyCore", "resource": "Resource", "new_resource": "Opt[Resource]"},
+         defaults={"new_resource": "None"}, modifies=["cache_calls"], raises={},
+         ensures=["len(cache_calls) == len(old(cache_calls)) + len(self.cache_observers)",
+                  "forall(lambda k: implies(0 <= k and k < len(self.cache_observers), cache_calls[len(old(cache_calls)) + k] == (self.cache_observers[k], resource)))"],
+         loops={1: {"index": "i", "inv": ["len(cache_calls) == len(old(cache_calls)) + i",
+                                          "forall(lambda k: implies(0 <= k and k < i, cache_calls[len(old(cache_calls)) + k] == (self.cache_observers[k], resource)))"]}},
+         note="every registered cache is told about the changed resource, in registration order (moved/removed notifications pass the OLD resource)")
+
 from bounded import c13_warm as _b13
 bounded_check(name="c13-warm-vs-fresh", fn=_b13.run_case, domain=_b13.domain, exhaustive=False,
               label="B3 (random + scenarios): 100 (thorough 400) seeded 14-step histories of rope and behind-the-back changes, and 5 fixed scenarios "
